@@ -113,6 +113,59 @@ theorem ceil_div_mul_lt (N f : Rat) (hf : 0 < f) : ((N / f).ceil : Rat) * f < N 
   calc ((N / f).ceil : Rat) * f < (N / f + 1) * f := this
     _ = N + f := by rw [add_mul, e, one_mul]
 
+theorem foldl_min_le_init (l : List Rat) (a : Rat) : l.foldl min a ≤ a := by
+  induction l generalizing a with
+  | nil => exact le_refl _
+  | cons x xs ih => exact le_trans (ih (min a x)) (min_le_left _ _)
+
+theorem foldl_min_le_mem (l : List Rat) (a : Rat) (x : Rat) (hx : x ∈ l) : l.foldl min a ≤ x := by
+  induction l generalizing a with
+  | nil => cases hx
+  | cons y ys ih =>
+    rcases List.mem_cons.mp hx with rfl | h
+    · exact le_trans (foldl_min_le_init ys (min a x)) (min_le_right _ _)
+    · exact ih (min a y) h
+
+theorem minL_le (d : Rat) (l : List Rat) (x : Rat) (hx : x ∈ l) : C17.minL d l ≤ x := by
+  cases l with
+  | nil => cases hx
+  | cons y ys =>
+    simp only [C17.minL]
+    rcases List.mem_cons.mp hx with rfl | h
+    · exact foldl_min_le_init ys x
+    · exact foldl_min_le_mem ys y x h
+
+theorem init_le_foldl_max (l : List Rat) (a : Rat) : a ≤ l.foldl max a := by
+  induction l generalizing a with
+  | nil => exact le_refl _
+  | cons x xs ih => exact le_trans (le_max_left _ _) (ih (max a x))
+
+theorem mem_le_foldl_max (l : List Rat) (a : Rat) (x : Rat) (hx : x ∈ l) : x ≤ l.foldl max a := by
+  induction l generalizing a with
+  | nil => cases hx
+  | cons y ys ih =>
+    rcases List.mem_cons.mp hx with rfl | h
+    · exact le_trans (le_max_right _ _) (init_le_foldl_max ys (max a x))
+    · exact ih (max a y) h
+
+theorem le_maxL (d : Rat) (l : List Rat) (x : Rat) (hx : x ∈ l) : x ≤ C17.maxL d l := by
+  cases l with
+  | nil => cases hx
+  | cons y ys =>
+    simp only [C17.maxL]
+    rcases List.mem_cons.mp hx with rfl | h
+    · exact init_le_foldl_max ys x
+    · exact mem_le_foldl_max ys y x h
+theorem floor_intCast' (z : Int) : ((z : Rat)).floor = z := by
+  apply le_antisymm
+  · have := @Rat.floor_le (z : Rat); exact_mod_cast this
+  · rw [Rat.le_floor_iff]
+
+theorem ceil_intCast' (z : Int) : ((z : Rat)).ceil = z := by
+  apply le_antisymm
+  · rw [Rat.ceil_le_iff]
+  · have := @Rat.le_ceil (z : Rat); exact_mod_cast this
+
 theorem rabs_eq_abs (x : Rat) : rabs x = |x| := by
   unfold rabs
   split
